@@ -129,6 +129,9 @@ def generate(rng, tier):
     multi = [{'c13': C13.gen_case(rng, tier), 'types': ['multi-statement'], 'specific': False} for _ in range(n // 5)]
     multi += [{'c13': C13.gen_case_shadow(rng, tier), 'types': ['multi-statement'], 'specific': False} for _ in range(n // 20)]
     multi += [{'c13': C13.gen_case_history(rng, tier), 'types': ['multi-statement'], 'specific': False} for _ in range(n // 5)]
+    # statements whose operand texts differ in letter case only (a constant named like an enumeration key): the bits of a
+    # statement depend on its own operand values, not on a statement that looks the same after lower-casing
+    multi += [{'c13': C13.gen_case_set_history(rng, tier), 'types': ['multi-statement'], 'specific': False} for _ in range(n // 10)]
     return [gen_case(rng, tier) for _ in range(n)] + [gen_unit(rng) for _ in range(n // 2)] + multi
 
 
